@@ -15,6 +15,9 @@ they do not occur in what the model predicts.  `parts` stores the exported certi
 (`idx` = `peel_by_index` under `lge_shard`, `high` / `low` = the signature peelers of
 `ModelSig.lean`); `solve <list>` is `solve idx <list>`.
 `crafted_empty_shard <n> <empty_shard> <threads>` is answered `unmodelled` (not compared by `check`).
+The logic token `lg=` is only read by `parts`; `lg=mwhc` (`Mwhc3Shards`, feature `mwhc`) builds are
+never followed by `parts` / `solve` (no model of the MWHC edge logic here): `build`, `len`, `qbig`.
+A bit-field filter build with `fb` outside `1..=W` panics (explicit `assert!`s).
 -/
 namespace Sux.Func
 open Sux.Proto
@@ -78,6 +81,9 @@ def doBuild (take : Bool) (kind : String) (toks : List String) : Option (RSt × 
     else if a + 1 < att then .solveErr .unsolvable
     else .ok items.length
   let S : BL.Sys Nat Nat Nat := { keys := keys, vals := vals, solve := solve }
+  -- `try_build_filter(keys, filter_bits, pl)` of the bit-field back-end starts with
+  -- `assert!(filter_bits > 0); assert!(filter_bits <= W::BITS)`
+  if filter && bfv && (hashBits = 0 || hashBits > W) then some ({}, "panic") else
   let (r, k) := BL.build S (att + 10)
   let st : RSt := match r with
     | .ok f => { built := true, filter := filter, bfv := bfv, W := W, hashBits := hashBits, nKeys := f, attempts := k }
